@@ -7,6 +7,8 @@
 From BP Require Import Base.Prelude Model.Casing Model.C19Norm Spec.C19Regex Spec.C19Unicode.
 From BP Require Import Proofs.CasingP Proofs.CasingP2 Proofs.CasingP3 Proofs.CasingP4.
 From BP Require Import Proofs.CasingX1 Proofs.CasingX2 Proofs.CasingX3 Proofs.CasingX6 Proofs.CasingX8.
+From BP Require Import Model.C19GapDefs Proofs.C19GapA Proofs.C19GapB.
+From BP Require Spec.JsonMap.
 From Coq Require Import String.
 Local Notation b := list_byte_of_string.
 
@@ -374,4 +376,192 @@ Example C19_ex_code_points :
   /\ option_map utf8 (pascal_case_cp s) = Some (b "NaVeName1X")
   /\ option_map utf8 (camel_case_cp s) = Some (b "naVeName1X")
   /\ utf8 [128512%N] = [xf0; x9f; x98; x80].
+Proof. vm_compute. repeat split. Qed.
+
+(* ==================================================================================================================
+   GAP CLOSING against the property text (clause-by-clause table: header of Proofs/C19GapA.v; definitions:
+   Model/C19GapDefs.v).  A message class is given by the list [names] of the PROTO names of its fields; its Python
+   attributes are fields_of names = map pythonize_field_name names.
+   ================================================================================================================== *)
+
+(* ---- (5) the keys to_dict emits are the casings of the PROTO name: the decoration sanitize_name adds to the attribute
+   (from_ , _1) never reaches the JSON.  Every byte string. ---- *)
+Theorem C19_keys_of_proto_name : forall s,
+  camel_key (pythonize_field_name s) = camel_case s /\ snake_key (pythonize_field_name s) = snake_case s.
+Proof. exact keys_of_proto_name. Qed.
+Print Assumptions C19_keys_of_proto_name.
+
+(* quantifier "all Python keywords": a lower-case keyword k becomes the attribute k_ , its snake key is k itself and the
+   key k addresses the attribute *)
+Theorem C19_keyword_field_key : forall k, is_keyword k = true -> snake_case k = k ->
+  pythonize_field_name k = k ++ [us] /\ snake_key (pythonize_field_name k) = k /\
+  field_for_key [pythonize_field_name k] k = Some (pythonize_field_name k).
+Proof. exact keyword_field_key. Qed.
+Print Assumptions C19_keyword_field_key.
+
+(* ---- (7) "no field is silently dropped": to_dict with Casing.SNAKE never merges two generated attributes
+   (no hypothesis on the class); for Casing.CAMEL the condition is exact by C19_from_dict_camel_back_iff ---- *)
+Theorem C19_snake_keys_distinct : forall f g,
+  safe_snake_case f = f -> safe_snake_case g = g -> snake_key f = snake_key g -> f = g.
+Proof. exact snake_keys_distinct. Qed.
+Print Assumptions C19_snake_keys_distinct.
+
+(* the lower-cased camelCase key of the attribute generated for s is s without its non-alphanumerics, lower-cased; for a
+   proto identifier that is protoc's ToLowercaseWithoutUnderscores(s) *)
+Theorem C19_camel_key_lowered : forall s,
+  lower (camel_key (pythonize_field_name s)) = alnum_key s /\ (ident_chars s = true -> alnum_key s = legacy_key s).
+Proof. intros s. split; [exact (lower_camel_key s)|exact (alnum_key_legacy s)]. Qed.
+Print Assumptions C19_camel_key_lowered.
+
+(* ---- (1a) the mapping of a CLASS: under the proto3 rule of protoc <= 21 (field names unique after lower-casing and
+   removing underscores) different proto fields get different attributes, different camelCase keys, different snake keys ---- *)
+Theorem C19_field_names_distinct_legacy : forall names,
+  (forall s, In s names -> ident_chars s = true) ->
+  (forall s t, In s names -> In t names -> legacy_key s = legacy_key t -> s = t) ->
+  forall s t, In s names -> In t names ->
+    (pythonize_field_name s = pythonize_field_name t -> s = t) /\
+    (camel_key (pythonize_field_name s) = camel_key (pythonize_field_name t) -> s = t) /\
+    (snake_key (pythonize_field_name s) = snake_key (pythonize_field_name t) -> s = t).
+Proof. exact field_names_distinct_legacy. Qed.
+Print Assumptions C19_field_names_distinct_legacy.
+
+(* ---- (6b) ... and ALL THREE keys of EVERY field of the class map back to that field (the hypothesis "pairwise distinct
+   camelCase keys" of C19_from_dict_generated_keys_back and the note "no sibling's key equals the proto name" discharged) ---- *)
+Theorem C19_class_keys_back_legacy : forall names,
+  (forall s, In s names -> ident_chars s = true) ->
+  (forall s t, In s names -> In t names -> legacy_key s = legacy_key t -> s = t) ->
+  forall s, In s names ->
+    let fs := fields_of names in let F := pythonize_field_name s in
+    field_for_key fs (camel_key F) = Some F /\ field_for_key fs (snake_key F) = Some F /\ field_for_key fs s = Some F.
+Proof. exact legacy_class_keys_back. Qed.
+Print Assumptions C19_class_keys_back_legacy.
+
+(* ---- (6a) the EXACT condition for a class, any names whatsoever: all three keys of all fields map back iff the
+   camelCase keys of the attributes are pairwise distinct and no attribute's camelCase key is the proto name of a
+   field with another attribute ---- *)
+Theorem C19_class_keys_back_iff : forall names,
+  let fs := fields_of names in
+  (forall s, In s names -> let F := pythonize_field_name s in
+      field_for_key fs (camel_key F) = Some F /\ field_for_key fs (snake_key F) = Some F /\ field_for_key fs s = Some F)
+  <->
+  ((forall f g, In f fs -> In g fs -> camel_key f = camel_key g -> f = g) /\
+   (forall s t, In s names -> In t names -> camel_key (pythonize_field_name t) = s ->
+      pythonize_field_name t = pythonize_field_name s)).
+Proof. exact class_keys_back_iff. Qed.
+Print Assumptions C19_class_keys_back_iff.
+
+(* which keys address the field f of a class with attributes fs, exactly: the keys of the camelCase table whose LAST entry
+   is f, and the keys outside the table that safe_snake_case sends to f *)
+Theorem C19_from_dict_key_iff : forall fs k f,
+  field_for_key fs k = Some f <->
+  In f fs /\ (assoc_last k (key_table fs) = Some f \/
+              ((forall g, In g fs -> camel_key g <> k) /\ safe_snake_case k = f)).
+Proof. exact from_dict_key_iff. Qed.
+Print Assumptions C19_from_dict_key_iff.
+
+(* ---- the rule protoc >= 22 enforces (default JSON names pairwise distinct, case-sensitively: libprotoc 35.1 accepts
+   message M { int32 FooBar = 1; int32 foo_bar = 2; } in proto3) is NOT enough: both fields get the attribute foo_bar.
+   On the real plugin the class then has the attribute twice and M.FromString(08 05 10 07) = M(foo_bar=7): field 1 is
+   silently dropped (reported; not a K-finding of this check yet). ---- *)
+Theorem C19_json_rule_collision_refuted :
+  exists names s t, json_rule_ok names = true /\ In s names /\ In t names /\ s <> t /\
+    pythonize_field_name s = pythonize_field_name t /\ legacy_rule_ok names = false.
+Proof. exact json_rule_collision_refuted. Qed.
+Print Assumptions C19_json_rule_collision_refuted.
+
+(* ---- (2) class names of proto identifiers: class_name_ok read off the name ---- *)
+Theorem C19_class_name_ok_proto_ident : forall s, ident_chars s = true -> class_name_ok s = class_name_ok_ident s.
+Proof. exact class_name_ok_proto_ident. Qed.
+Print Assumptions C19_class_name_ok_proto_ident.
+
+(* a proto identifier that starts with a letter: the class name is a non-keyword identifier iff snake_case s is not
+   one of none / true / false *)
+Theorem C19_class_ident_letter_start : forall s, ident_chars s = true -> starts_letter s = true ->
+  ((is_identifier (pythonize_class_name s) = true /\ is_keyword (pythonize_class_name s) = false) <->
+   mem_bytes (snake_case s) (map lower capital_keywords) = false).
+Proof. exact class_ident_letter_start. Qed.
+Print Assumptions C19_class_ident_letter_start.
+
+(* ---- (3) enum members: the hypothesis ident_chars of C19_enum_member_ident holds for every proto identifier ---- *)
+Theorem C19_enum_member_ident_proto : forall name enum_name, proto_ident name = true ->
+  is_identifier (pythonize_enum_member_name name enum_name) = true /\
+  is_keyword (pythonize_enum_member_name name enum_name) = false.
+Proof. exact enum_member_ident_proto. Qed.
+Print Assumptions C19_enum_member_ident_proto.
+
+(* "idempotent" for enum members: only when the enum prefix does not occur in the result *)
+Theorem C19_enum_member_idem : forall name enum_name, ident_chars name = true ->
+  after_first (upper (snake_case enum_name)) (pythonize_enum_member_name name enum_name) = None ->
+  pythonize_enum_member_name (pythonize_enum_member_name name enum_name) enum_name = pythonize_enum_member_name name enum_name.
+Proof. exact enum_member_idem. Qed.
+Print Assumptions C19_enum_member_idem.
+
+Theorem C19_enum_member_idem_refuted : exists name enum_name, proto_ident name = true /\ proto_ident enum_name = true /\
+  after_first (upper (snake_case enum_name)) (pythonize_enum_member_name name enum_name) <> None /\
+  pythonize_enum_member_name (pythonize_enum_member_name name enum_name) enum_name <> pythonize_enum_member_name name enum_name.
+Proof. exact enum_member_idem_refuted. Qed.
+Print Assumptions C19_enum_member_idem_refuted.
+
+(* ---- non-vacuity of the gap-closing theorems ---- *)
+(* a proto3 class (legacy rule holds) with names the casing functions alone do not invert (address_line_1, x_y_z), a keyword,
+   mixed case: every key of every field maps back; and the two rules on the FooBar / foo_bar class *)
+Example C19_ex_gap_class :
+  let names := [b "address_line_1"; b "x_y_z"; b "from"; b "HTTPStatus"; b "ipv4_address"; b "_1"] in
+  legacy_rule_ok names = true /\ json_rule_ok names = true /\ forallb (keys_back names) names = true
+  /\ map (fun s => string_of_list_byte (camel_key (pythonize_field_name (b s)))) ["from"; "_1"; "HTTPStatus"]%string
+     = ["from"; "1"; "httpStatus"]%string
+  /\ json_rule_ok [b "FooBar"; b "foo_bar"] = true /\ legacy_rule_ok [b "FooBar"; b "foo_bar"] = false
+  /\ fields_of [b "FooBar"; b "foo_bar"] = [b "foo_bar"; b "foo_bar"]
+  /\ (* a class where the proto name xYZ of one field is the camelCase key of its sibling: exactly the third key fails *)
+     map (keys_back [b "xYZ"; b "x_y_z"]) [b "xYZ"; b "x_y_z"] = [false; true]
+  /\ legacy_key (b "x_Y_z") = b "xyz".
+Proof. vm_compute. repeat split. Qed.
+Example C19_ex_gap_class_names :
+  map class_name_ok_ident [b "Foo_Bar"; b "_"; b "__1x"; b "_x1"; b "None"; b "NONE"; b "n_one"] = [true; false; false; true; false; false; true]
+  /\ starts_letter (b "HTTPStatus") = true /\ starts_letter (b "_x") = false
+  /\ is_keyword (b "from") = true /\ snake_case (b "from") = b "from"
+  /\ pythonize_enum_member_name (b "COLOR_RED") (b "Color") = b "RED"
+  /\ after_first (upper (snake_case (b "Color"))) (b "RED") = None
+  /\ pythonize_enum_member_name (b "COLOR_COLOR_RED") (b "Color") = b "COLOR_RED".
+Proof. vm_compute. repeat split. Qed.
+
+(* ---- the class-level statements in boolean form (Proofs/C19GapB.v): the hypotheses are the decidable predicates
+   legacy_rule_ok / keys_back of Model/C19GapDefs.v, which can be evaluated on any list of proto field names ---- *)
+(* keys_back DECIDES "the three keys of the field named s address that field" *)
+Theorem C19_keys_back_iff : forall names s,
+  keys_back names s = true <->
+  (let fs := fields_of names in let F := pythonize_field_name s in
+   field_for_key fs (camel_key F) = Some F /\ field_for_key fs (snake_key F) = Some F /\ field_for_key fs s = Some F).
+Proof. exact keys_back_iff. Qed.
+Print Assumptions C19_keys_back_iff.
+
+(* headline of clause (6): a class whose field names are proto identifiers, unique after lower-casing and removing
+   underscores (proto3 under protoc <= 21), loses no key: camelCase key, snake_case key and proto name of every field *)
+Theorem C19_legacy_rule_keys_back : forall names, legacy_rule_ok names = true -> forallb (keys_back names) names = true.
+Proof. exact legacy_rule_keys_back. Qed.
+Print Assumptions C19_legacy_rule_keys_back.
+
+(* ... and no two of its fields share an attribute, a camelCase key or a snake_case key *)
+Theorem C19_legacy_rule_attrs_distinct : forall names, legacy_rule_ok names = true ->
+  forall s t, In s names -> In t names ->
+    (pythonize_field_name s = pythonize_field_name t \/ camel_key (pythonize_field_name s) = camel_key (pythonize_field_name t)
+     \/ snake_key (pythonize_field_name s) = snake_key (pythonize_field_name t)) -> s = t.
+Proof. exact legacy_rule_attrs_distinct. Qed.
+Print Assumptions C19_legacy_rule_attrs_distinct.
+
+(* the two protoc rules: ToLowercaseWithoutUnderscores(s) is the lower-cased ToJsonName(s) (Spec/JsonMap.v), hence every
+   class accepted under the old rule is accepted under the new one; the converse fails (C19_json_rule_collision_refuted) *)
+Theorem C19_legacy_key_json_name : forall s, legacy_key s = lower (JsonMap.protoc_json_name s).
+Proof. exact legacy_key_json_name. Qed.
+Print Assumptions C19_legacy_key_json_name.
+
+Theorem C19_legacy_rule_implies_json_rule : forall names, legacy_rule_ok names = true -> json_rule_ok names = true.
+Proof. exact legacy_rule_implies_json_rule. Qed.
+Print Assumptions C19_legacy_rule_implies_json_rule.
+
+Example C19_ex_gap_rules :
+  legacy_rule_ok [b "x_yz"; b "x_y_z"] = false /\ json_rule_ok [b "x_yz"; b "x_y_z"] = true
+  /\ forallb (keys_back [b "x_yz"; b "x_y_z"]) [b "x_yz"; b "x_y_z"] = true      (* the legacy rule is sufficient, not necessary *)
+  /\ forallb (keys_back [b "FooBar"; b "foo_bar"]) [b "FooBar"; b "foo_bar"] = true   (* same attribute: from_dict cannot tell; the loss is in the class *)
+  /\ JsonMap.protoc_json_name (b "x_y_z") = b "xYZ" /\ legacy_key (b "x_y_z") = b "xyz".
 Proof. vm_compute. repeat split. Qed.
